@@ -818,6 +818,25 @@ func checkDetMain(c *Check, p *Prog) {
 		if n != 1 || g == nil {
 			return nil, "callback effect not recognised"
 		}
+		// R-PIPE/walk-complete: filepath.Walk visits every entry only as long as the callback returns nil: a
+		// non-nil return stops the walk, and filepath.SkipDir returned for a regular file skips the REST of its
+		// directory - the samples sorting after it are then neither counted nor dispatched, and the report
+		// silently lacks their rows. The incoming walk error (third parameter) is the only other accepted value.
+		wa := walkArgs(x, idx)
+		var badRet []string
+		nret := 0
+		for _, r := range cs.Rets {
+			if r.Dead || len(r.Rets) != 1 {
+				continue
+			}
+			nret++
+			if !(r.Rets[0].IsNil() || r.Rets[0] == wa[2]) {
+				badRet = append(badRet, fmt.Sprintf("%s returns %v under %v", p.Pos(r.Pos), r.Rets[0], r.Guard))
+			}
+		}
+		c.Expect(len(badRet) == 0 && nret > 0, "R-PIPE", "main/walk-complete/"+effect, wherePos(p, e),
+			fmt.Sprintf("all %d returns of the walk callback yield nil (or the incoming walk error): no entry is skipped", nret),
+			"the walk callback can abort the walk or skip the rest of a directory (samples after that entry get no row): "+strings.Join(badRet, "; "))
 		return S.Canon(g), ""
 	}
 	// the sample size is inferred only from counted sample files
